@@ -332,7 +332,7 @@ type c15case struct {
 func scenC15(run *vlab.Run, sx, tmp string) {
 	rng := run.Rand("c15wire")
 	var cases []*c15case
-	rates := []string{"200/s", "1000/s", "5000/s", "500", "100/100ms", "50/20ms", "3000/3s", "400/250ms", "20/10ms", "2/ms", "1000/1s", "20000/s", "8000/s"}
+	rates := []string{"200/s", "1000/s", "5000/s", "500", "100/100ms", "50/20ms", "3000/3s", "400/250ms", "20/10ms", "2/ms", "1000/1s", "20000/s", "8000/s", "300/1.5s", "100/.5s"}
 	n := run.Pick(44, 330)
 	for i := 0; i < n; i++ {
 		c := &c15case{Rate: rates[i%len(rates)]}
